@@ -104,13 +104,30 @@ def render(env, rng=None, anns=None):
             if where == "funret":
                 lets.append("let f%d() : %s = close self" % (k, s))
             elif where == "funparam":
-                lets.append("let f%d(x : 1, y%d : %s) : 1 = close self" % (k, k, s))
+                lets.append("let f%d(y%d : %s) : 1 = close self" % (k, k, s))
             elif where == "assume":
                 assumes.append("assuming a%d : %s" % (k, s))
             else:
                 prcs.append("prc[p%d] : %s = close self" % (k, s))
         lines += lets + assumes + prcs
     return "\n".join(lines) + "\n"
+
+
+def ann_order(anns):
+    """the annotation types of render(env, anns=anns) in the order the probe visits them: functions (provider
+    type, then parameters), assumed names, processes"""
+    lets, assumes, prcs = [], [], []
+    for where, h, b in anns:
+        if where == "funret":
+            lets.append((where, h, b))
+        elif where == "funparam":
+            lets.append(("funret", None, ("unit",)))
+            lets.append((where, h, b))
+        elif where == "assume":
+            assumes.append((where, h, b))
+        else:
+            prcs.append((where, h, b))
+    return lets + assumes + prcs
 
 
 # ----------------------------------------------------------------------------------------
